@@ -386,10 +386,10 @@ def go(kind_i, ia, ib, ops):
 ISOF = r'''
 def iso___A__(kind_i: int, ib: int, o1: int, o2: int) -> bool:
     """
-    pre: 0 <= kind_i <= 1 and 0 <= ib < len(IDS) and 0 <= o1 < len(OPS) and 0 <= o2 < len(OPS)
+    pre: 0 <= kind_i <= 1 and 0 <= ib < len(IDS) and 0 <= o1 < len(OPS) and __O2PRE__
     post: _
     """
-    return go(kind_i, __A__, ib, [o1, o2])
+    return go(kind_i, __A__, ib, [o1, o2][:__NOPS__])
 '''
 
 ISOX = r'''
@@ -422,8 +422,10 @@ def run(ctx: Ctx) -> None:
     _purge_reach(ctx)
     src = ISO
     conds = []
+    thorough = ctx.tier == "thorough"
     for a in range(12):
-        src += ISOF.replace("__A__", str(a))
+        src += (ISOF.replace("__A__", str(a)).replace("__O2PRE__", "0 <= o2 < len(OPS)" if thorough else "o2 == 0")
+                .replace("__NOPS__", "2" if thorough else "1"))
         conds.append(Cond(f"iso_{a}", "confirm", 900))
     src += ISOX
     conds += [Cond("twin", "refute", 60), Cond("canary_same_id", "refute", 120)]
@@ -433,7 +435,7 @@ def run(ctx: Ctx) -> None:
     ctx.bounds = {
         "sql safety": f"every id of length 0..{MAXLEN}, code points 0..0x10FFFF; SHA-256 = 8 fresh lowercase-hex chars per id (uninterpreted function)",
         "purge reach": "ids of printable ASCII, |A| = 2, B long enough to contain A's component prefix; LIKE with '_' wildcard and ASCII case folding",
-        "operation level": "12 adversarial ids (case/punctuation variants, quotes, semicolons, LIKE wildcards, unicode, empty, leading digit), all ordered pairs, 2 ops on A out of 9 (route, status, register, each purge, app.purge), both stacks",
+        "operation level": "12 adversarial ids (case/punctuation variants, quotes, semicolons, LIKE wildcards, unicode, empty, leading digit), all ordered pairs, 1 op (thorough: 2 ops) on A out of 9 (route, status, register, each purge, app.purge), both stacks",
     }
     ctx.stubs += ["str.isdigit modelled as an uninterpreted predicate pinned to its true values on ASCII",
                   "hashlib.sha256(...).hexdigest() modelled as 64 fresh lowercase-hex characters, functional in its input"]
